@@ -120,10 +120,165 @@ pub proof fn lemma_roots_sum_nonneg(s: Seq<Node>)
     decreases s.len()
 { if s.len() > 0 { lemma_roots_sum_nonneg(s.drop_last()); } }
 
+// ---- the root list as a "mountain range" ----
+use flat_tree::{p2, depth_of, offset_of, node_index};
+/// flat index at which the tree of root k starts (the trees of roots 0..k are laid out one after the other from 0)
+pub open spec fn root_start(roots: Seq<Node>, k: int) -> int
+    decreases k
+{ if k <= 0 { 0 } else { root_start(roots, k - 1) + p2(depth_of(roots[k - 1].index) + 1) } }
+/// root k is the root of the full tree that starts there, and it is a left child (its start is aligned for the next level)
+pub open spec fn mr_at(roots: Seq<Node>, k: int) -> bool {
+    roots[k].index == root_start(roots, k) + p2(depth_of(roots[k].index)) - 1 && root_start(roots, k) % p2(depth_of(roots[k].index) + 2) == 0
+}
+pub open spec fn mr(roots: Seq<Node>) -> bool { forall|k: int| 0 <= k < roots.len() ==> #[trigger] mr_at(roots, k) }
+/// being a mountain range depends on the indices of the roots only
+pub proof fn lemma_mr_same(a: Seq<Node>, b: Seq<Node>)
+    requires a.len() == b.len(), forall|k: int| 0 <= k < a.len() ==> (#[trigger] a[k]).index == b[k].index, mr(b)
+    ensures mr(a), root_start(a, a.len() as int) == root_start(b, b.len() as int)
+{
+    assert forall|k: int| 0 <= k < a.len() implies #[trigger] mr_at(a, k) by { assert(mr_at(b, k)); lemma_root_start_prefix(a, b, k); }
+    lemma_root_start_prefix(a, b, a.len() as int);
+}
+pub proof fn lemma_root_start_mono(roots: Seq<Node>, a: int, b: int)
+    requires 0 <= a <= b
+    ensures 0 <= root_start(roots, a) <= root_start(roots, b)
+    decreases b
+{
+    if a < b { lemma_root_start_mono(roots, a, b - 1); flat_tree::lemma_p2_pos(depth_of(roots[b - 1].index) + 1); }
+    else if a > 0 { lemma_root_start_mono(roots, a - 1, a - 1); flat_tree::lemma_p2_pos(depth_of(roots[a - 1].index) + 1); }
+}
+pub proof fn lemma_root_start_even(roots: Seq<Node>, k: int)
+    ensures root_start(roots, k) % 2 == 0
+    decreases k
+{
+    if k > 0 { lemma_root_start_even(roots, k - 1); assert(p2(depth_of(roots[k - 1].index) + 1) == 2 * p2(depth_of(roots[k - 1].index))); }
+}
+/// root_start depends on the indices of the roots before k only
+pub proof fn lemma_root_start_prefix(a: Seq<Node>, b: Seq<Node>, k: int)
+    requires 0 <= k <= a.len(), k <= b.len(), forall|j: int| 0 <= j < k ==> (#[trigger] a[j]).index == b[j].index
+    ensures root_start(a, k) == root_start(b, k)
+    decreases k
+{ if k > 0 { lemma_root_start_prefix(a, b, k - 1); assert(a[k - 1].index == b[k - 1].index); } }
+/// in a mountain range every root lies before the start of the next one
+pub proof fn lemma_mr_index_below(roots: Seq<Node>, k: int, n: int)
+    requires 0 <= k < n <= roots.len(), mr_at(roots, k)
+    ensures roots[k].index < root_start(roots, n), root_start(roots, k) <= roots[k].index
+{
+    lemma_root_start_mono(roots, k + 1, n);
+    lemma_root_start_mono(roots, 0, k);
+    flat_tree::lemma_p2_pos(depth_of(roots[k].index));
+    assert(p2(depth_of(roots[k].index) + 1) == 2 * p2(depth_of(roots[k].index)));
+}
+/// the start of a node in flat coordinates is offset * 2^(d+1)
+pub proof fn lemma_node_start(index: u64)
+    ensures offset_of(index) >= 0, index == offset_of(index) * p2(depth_of(index) + 1) + p2(depth_of(index)) - 1
+{ flat_tree::lemma_node_of_index(index); }
+
+/// a mountain range whose last root may still be a right child (state inside append_root's merge loop)
+pub open spec fn almost_mr(roots: Seq<Node>, length: u64) -> bool {
+    &&& roots.len() >= 1
+    &&& forall|k: int| 0 <= k < roots.len() - 1 ==> #[trigger] mr_at(roots, k)
+    &&& roots.last().index == root_start(roots, roots.len() - 1) + p2(depth_of(roots.last().index)) - 1
+    &&& root_start(roots, roots.len() as int) == 2 * length
+    &&& roots.len() == 1 ==> mr_at(roots, 0)
+}
+pub proof fn lemma_mr_single(roots: Seq<Node>)
+    requires roots.len() == 1, roots[0].index == root_start(roots, 0) + p2(depth_of(roots[0].index)) - 1
+    ensures mr_at(roots, 0)
+{
+    flat_tree::lemma_p2_pos(depth_of(roots[0].index) + 2);
+    vstd::arithmetic::div_mod::lemma_small_mod(0, p2(depth_of(roots[0].index) + 2) as nat);
+}
+/// pushing the root of the full tree that starts at the end of a mountain range
+pub proof fn lemma_mr_push(roots0: Seq<Node>, length0: u64, roots: Seq<Node>, length: u64, it: flat_tree::Iterator)
+    requires mr(roots0), root_start(roots0, roots0.len() as int) == 2 * length0,
+        roots.len() == roots0.len() + 1, forall|k: int| 0 <= k < roots0.len() ==> (#[trigger] roots[k]).index == roots0[k].index,
+        it.wf(), roots.last().index == it.index, it.index == 2 * length0 + p2(it.d@) - 1, length == length0 + it.factor / 2
+    ensures almost_mr(roots, length)
+{
+    flat_tree::lemma_node_of(it);
+    let n = roots.len() as int;
+    lemma_root_start_prefix(roots, roots0, n - 1);
+    assert forall|k: int| 0 <= k < n - 1 implies #[trigger] mr_at(roots, k) by {
+        assert(mr_at(roots0, k));
+        lemma_root_start_prefix(roots, roots0, k);
+    }
+    assert(p2(it.d@ + 1) == 2 * p2(it.d@));
+    assert(root_start(roots, n) == root_start(roots, n - 1) + p2(depth_of(roots[n - 1].index) + 1));
+    if n == 1 { lemma_mr_single(roots); }
+}
+/// the sibling of the last root is not the root before it: the last root is a left child, the range is complete
+pub proof fn lemma_mr_break(rs: Seq<Node>, length: u64, it0: flat_tree::Iterator, sib_index: int)
+    requires almost_mr(rs, length), rs.len() >= 2, it0.wf(), it0.index == rs.last().index,
+        sib_index == (if it0.offset % 2 == 0 { it0.index + it0.factor } else { it0.index - it0.factor }),
+        sib_index != rs[rs.len() - 2].index
+    ensures mr(rs)
+{
+    let n = rs.len() as int;
+    flat_tree::lemma_node_of(it0);
+    let d_a = it0.d@; let o_a = it0.offset as int;
+    let s1 = root_start(rs, n - 1);
+    assert(s1 == o_a * p2(d_a + 1));
+    if o_a % 2 == 1 {
+        assert(mr_at(rs, n - 2));
+        let d_b = depth_of(rs[n - 2].index);
+        let s0 = root_start(rs, n - 2);
+        assert(s1 == s0 + p2(d_b + 1));
+        lemma_root_start_mono(rs, 0, n - 2);
+        flat_tree::lemma_mr_sibling(s1, o_a, d_a, s0, d_b);
+        assert(p2(d_a + 1) == 2 * p2(d_a));
+        assert(false);
+    }
+    flat_tree::lemma_even_offset(o_a, d_a, s1);
+    assert(mr_at(rs, n - 1));
+}
+/// the sibling of the last root is the root before it: they merge into their parent, which starts where that root started
+pub proof fn lemma_mr_merge(rs: Seq<Node>, length: u64, it0: flat_tree::Iterator, itp: flat_tree::Iterator, roots: Seq<Node>)
+    requires almost_mr(rs, length), rs.len() >= 2, it0.wf(), it0.index == rs.last().index,
+        rs[rs.len() - 2].index == (if it0.offset % 2 == 0 { it0.index + it0.factor } else { it0.index - it0.factor }),
+        itp.wf(), itp.d@ == it0.d@ + 1, itp.index == (if it0.offset % 2 == 0 { it0.index + it0.factor / 2 } else { it0.index - it0.factor / 2 }),
+        roots.len() == rs.len() - 1, forall|k: int| 0 <= k < rs.len() - 2 ==> (#[trigger] roots[k]).index == rs[k].index,
+        roots.last().index == itp.index
+    ensures almost_mr(roots, length)
+{
+    let n = rs.len() as int;
+    flat_tree::lemma_node_of(it0);
+    flat_tree::lemma_node_of(itp);
+    let d_a = it0.d@; let o_a = it0.offset as int;
+    let s1 = root_start(rs, n - 1);
+    assert(mr_at(rs, n - 2));
+    let b = rs[n - 2];
+    let d_b = depth_of(b.index);
+    let s0 = root_start(rs, n - 2);
+    assert(s1 == s0 + p2(d_b + 1));
+    lemma_mr_index_below(rs, n - 2, n - 1);
+    flat_tree::lemma_p2_pos(d_a); flat_tree::lemma_p2_pos(d_b);
+    assert(p2(d_a + 1) == 2 * p2(d_a) && p2(d_a + 2) == 2 * p2(d_a + 1) && p2(d_b + 1) == 2 * p2(d_b));
+    // the root before the last one lies to the left, so the last root is the right child
+    assert(o_a % 2 == 1);
+    // ... and that root is the node (d_a, o_a - 1)
+    flat_tree::lemma_node_of_index(b.index);
+    assert((o_a - 1) * p2(d_a + 1) == o_a * p2(d_a + 1) - p2(d_a + 1)) by (nonlinear_arith);
+    assert(node_index(d_a, o_a - 1) == b.index);
+    flat_tree::lemma_node_unique(d_b, offset_of(b.index), d_a, o_a - 1);
+    assert(d_b == d_a);
+    // the merged list
+    assert forall|k: int| 0 <= k < roots.len() - 1 implies #[trigger] mr_at(roots, k) by {
+        assert(mr_at(rs, k));
+        lemma_root_start_prefix(roots, rs, k);
+    }
+    lemma_root_start_prefix(roots, rs, n - 2);
+    assert(root_start(roots, n - 1) == root_start(roots, n - 2) + p2(depth_of(roots[n - 2].index) + 1));
+    assert(root_start(rs, n) == s1 + p2(depth_of(rs[n - 1].index) + 1));
+    if roots.len() == 1 { lemma_mr_single(roots); }
+}
+
 impl MerkleTreeChangeset {
+    /// the roots form a mountain range that ends at leaf `length`
+    pub open spec fn cs_mr(&self) -> bool { mr(self.roots@) && root_start(self.roots@, self.roots@.len() as int) == 2 * self.length }
     pub open spec fn cs_wf(&self) -> bool {
         &&& self.length <= 0x4000_0000_0000_0000 && self.byte_length <= 0x4000_0000_0000_0000
-        &&& self.roots@.len() <= 0x40_0000 && self.nodes@.len() <= 0x100_0000
+        &&& self.roots@.len() <= 0x80_0000 && self.nodes@.len() <= 0x100_0000
         &&& roots_sum(self.roots@) == self.byte_length
         &&& forall|i: int| 0 <= i < self.roots@.len() ==> (#[trigger] self.roots@[i]).index < 0x200_0000_0000
     }
@@ -132,7 +287,7 @@ impl MerkleTreeChangeset {
     tags: C04 C05 C09 C03
     requires:
         old(self).cs_wf(), old(iter).wf(), node.index == old(iter).index, node.index < 0x200_0000_0000,
-        old(self).nodes@.len() + old(self).roots@.len() <= 0xff_fff0, old(self).roots@.len() < 0x40_0000,
+        old(self).nodes@.len() + old(self).roots@.len() <= 0xff_fff0, old(self).roots@.len() < 0x80_0000,
         old(self).length + old(iter).factor / 2 <= 0x4000_0000_0000_0000,
         old(self).byte_length + node.length <= 0x4000_0000_0000_0000
     ensures:
@@ -146,14 +301,23 @@ impl MerkleTreeChangeset {
         final(iter).wf() && final(iter).index == final(self).roots@.last().index,
         final(self).fork == old(self).fork, final(self).ancestors == old(self).ancestors, final(self).batch_length == old(self).batch_length,
         final(self).hash == old(self).hash, final(self).signature == old(self).signature,
-        final(self).original_tree_length == old(self).original_tree_length, final(self).original_tree_fork == old(self).original_tree_fork
+        final(self).original_tree_length == old(self).original_tree_length, final(self).original_tree_fork == old(self).original_tree_fork,
+        // C05 flat in-order numbering / root sets of every shape: appending the root of the full tree that starts at the end
+        // of a mountain range gives a mountain range again (right children are merged with their left siblings, bottom up)
+        old(self).cs_mr() && node.index == 2 * old(self).length + p2(depth_of(node.index)) - 1 ==> final(self).cs_mr()
     before `self.length += iter.factor() / 2;`:
-        proof { lemma_index_depth(*iter); }
+        proof { lemma_index_depth(*iter); flat_tree::lemma_node_of(*iter); }
         let ghost roots0 = self.roots@;
+        let ghost hmr = self.cs_mr() && node.index == 2 * self.length + p2(depth_of(node.index)) - 1;
+        let ghost length0 = self.length;
     before `while self.roots.len() > 1 {`:
-        proof { assert(self.roots@.drop_last() =~= roots0); }
+        proof {
+            assert(self.roots@.drop_last() =~= roots0);
+            if hmr { lemma_mr_push(roots0, length0, self.roots@, self.length, *iter); }
+        }
     loop 1:
         invariant
+            hmr ==> almost_mr(self.roots@, self.length),
             iter.wf(), self.roots@.len() >= 1, iter.index == self.roots@.last().index,
             self.roots@.len() <= old(self).roots@.len() + 1,
             roots_sum(self.roots@) == self.byte_length, self.byte_length <= 0x4000_0000_0000_0000, self.length <= 0x4000_0000_0000_0000,
@@ -163,13 +327,18 @@ impl MerkleTreeChangeset {
             self.fork == old(self).fork, self.ancestors == old(self).ancestors, self.batch_length == old(self).batch_length,
             self.hash == old(self).hash, self.signature == old(self).signature,
             self.original_tree_length == old(self).original_tree_length, self.original_tree_fork == old(self).original_tree_fork
+        ensures
+            hmr ==> self.cs_mr()
         decreases self.roots@.len()
     before `if iter.sibling() != b.index {`:
         proof { lemma_index_depth(*iter); }
         let ghost it0 = *iter;
         let ghost rs = self.roots@;
     before `iter.sibling(); // unset`:
-        proof { lemma_index_depth(*iter); }
+        proof {
+            lemma_index_depth(*iter);
+            if hmr { lemma_mr_break(rs, self.length, it0, iter.index as int); }
+        }
     before `let node = Node::new(`:
         proof {
             lemma_index_depth(*iter);
@@ -181,6 +350,7 @@ impl MerkleTreeChangeset {
     after `let _ = &self.roots.push(node);`:
         proof {
             assert(self.roots@.drop_last() =~= rs.drop_last().drop_last());
+            if hmr { lemma_mr_merge(rs, self.length, it0, *iter, self.roots@); }
         }
     @*/
 }
@@ -247,7 +417,11 @@ impl MerkleTreeChangeset {
         final(self).original_tree_length == old(self).original_tree_length, final(self).original_tree_fork == old(self).original_tree_fork,
         final(self).hash == old(self).hash, final(self).signature == old(self).signature,
         final(self).nodes@.len() <= old(self).nodes@.len() + 1 + old(self).roots@.len(),
-        final(self).roots@.len() <= old(self).roots@.len() + 1
+        final(self).roots@.len() <= old(self).roots@.len() + 1,
+        // C05: appending a block keeps the roots the mountain range of the new length
+        old(self).cs_mr() ==> final(self).cs_mr()
+    after `let mut iter = flat_tree::Iterator::new(head);`:
+        proof { flat_tree::lemma_node_of(iter); assert(p2(0) == 1); }
     @*/
 }
 
@@ -366,11 +540,95 @@ pub open spec fn verify_frame(a: &MerkleTreeChangeset, b: &MerkleTreeChangeset) 
         && a.original_tree_fork == b.original_tree_fork && a.batch_length == b.batch_length
 }
 
-/*@ fn src/tree/merkle_tree.rs fn verify_upgrade ; nodecreases
-tags: C04 C09 C03
+// ---- walking the full roots below `to` (shared with the creation path) ----
+/// the iterator sits on the full root found from leaf `gl` (aligned for 2^(ga+1) leaves) below `to`
+pub open spec fn full_root_at(it: flat_tree::Iterator, gl: int, ga: nat, to: u64) -> bool {
+    &&& it.wf() && gl >= 0 && flat_tree::leaf_aligned(gl, ga, to as int)
+    &&& it.index == gl + p2(it.d@) - 1 && gl + p2(it.d@ + 1) <= to && to < gl + p2(it.d@ + 2)
+}
+pub proof fn lemma_full_root_small(it: flat_tree::Iterator, gl: int, ga: nat, to: u64)
+    requires full_root_at(it, gl, ga, to), to < 0x400_0000_0000
+    ensures it.d@ <= 41, it.index < to, it.factor <= to, it.index + it.factor <= 0x3fff_ffff_ffff_ffff, it.index + it.factor / 2 == gl + p2(it.d@ + 1) - 1,
+        it.index + p2(it.d@) <= to
+{
+    flat_tree::lemma_p2_4x(); flat_tree::lemma_p2_pos(it.d@);
+    if it.d@ + 1 > 42 { flat_tree::lemma_p2_mono(42, it.d@ + 1); }
+}
+/// stepping to the next tree keeps the alignment the next full_root call needs, and makes progress
+pub proof fn lemma_next_tree(it: flat_tree::Iterator, gl: int, ga: nat, to: u64)
+    requires full_root_at(it, gl, ga, to), to < 0x400_0000_0000
+    ensures flat_tree::leaf_aligned(gl + p2(it.d@ + 1), it.d@, to as int), it.index + it.factor <= 0x3fff_ffff_ffff_ffff,
+        it.index + p2(it.d@) + 1 == gl + p2(it.d@ + 1), p2(it.d@ + 1) >= 2, gl + p2(it.d@ + 1) <= to, (gl + p2(it.d@ + 1)) % 2 == 0
+{
+    lemma_full_root_small(it, gl, ga, to);
+    flat_tree::lemma_next_aligned(gl, ga, it.d@, to as int);
+    flat_tree::lemma_p2_pos(it.d@);
+    vstd::arithmetic::div_mod::lemma_mod_mod(gl + p2(it.d@ + 1), 2, p2(it.d@));
+    assert(p2(it.d@ + 1) == 2 * p2(it.d@));
+}
+
+/// the right sibling of a left child
+pub proof fn lemma_right_sibling(it: flat_tree::Iterator)
+    requires it.wf(), it.offset % 2 == 0, it.index + 2 * it.factor <= 0x7fff_ffff_ffff_ffff
+    ensures depth_of((it.index + it.factor) as u64) == it.d@, offset_of((it.index + it.factor) as u64) == it.offset + 1,
+        (it.offset + 1) * p2(it.d@ + 1) == it.offset * p2(it.d@ + 1) + p2(it.d@ + 1)
+{
+    flat_tree::lemma_p2_pos(it.d@); assert(p2(it.d@ + 1) == 2 * p2(it.d@));
+    assert(it.offset <= it.offset * p2(it.d@ + 1)) by (nonlinear_arith) requires it.offset >= 0, p2(it.d@ + 1) >= 1;
+    let its = flat_tree::Iterator { index: (it.index + it.factor) as u64, offset: (it.offset + 1) as u64, factor: it.factor, d: it.d };
+    assert((it.offset + 1) * p2(it.d@ + 1) == it.offset * p2(it.d@ + 1) + p2(it.d@ + 1)) by (nonlinear_arith);
+    assert(its.wf());
+    flat_tree::lemma_node_of(its);
+}
+/// the last root of a mountain range is a left child; its right sibling starts at the end of the range
+pub proof fn lemma_last_root(cs: &MerkleTreeChangeset, it: flat_tree::Iterator)
+    requires cs.cs_mr(), cs.roots@.len() >= 1, it.wf(), it.index == cs.roots@.last().index
+    ensures it.offset % 2 == 0, it.d@ == depth_of(it.index), it.offset == offset_of(it.index),
+        it.offset * p2(it.d@ + 1) == root_start(cs.roots@, cs.roots@.len() - 1),
+        it.index + p2(it.d@) + 1 == 2 * cs.length,
+        it.index + it.factor + 1 == 2 * cs.length + p2(it.d@)
+{
+    let n = cs.roots@.len() as int;
+    flat_tree::lemma_node_of(it);
+    assert(mr_at(cs.roots@, n - 1));
+    flat_tree::lemma_even_offset(it.offset as int, it.d@, root_start(cs.roots@, n - 1));
+    assert(root_start(cs.roots@, n) == root_start(cs.roots@, n - 1) + p2(depth_of(cs.roots@[n - 1].index) + 1));
+    assert(p2(it.d@ + 1) == 2 * p2(it.d@));
+}
+/// flat position at which the subtree of the node an iterator is on starts
+pub open spec fn it_start(it: flat_tree::Iterator) -> int { it.offset * p2(it.d@ + 1) }
+pub proof fn lemma_left_child_start(it: flat_tree::Iterator)
+    requires it.wf(), it.d@ > 0
+    ensures (2 * it.offset) * p2(it.d@) == it_start(it), it.index == it_start(it) + p2(it.d@) - 1, p2(it.d@ + 1) >= 4
+{
+    assert(p2(it.d@ + 1) == 2 * p2(it.d@));
+    assert((2 * it.offset) * p2(it.d@) == it.offset * (2 * p2(it.d@))) by (nonlinear_arith);
+    assert(p2(it.d@) == 2 * p2((it.d@ - 1) as nat)); flat_tree::lemma_p2_pos((it.d@ - 1) as nat);
+}
+
+/// queue of an upgrade section: peer nodes below 2^40, the unverified block root (if any) below 2^41 with at most 2^61 bytes
+pub open spec fn uq_ok(q: NodeQueue) -> bool {
+    &&& q.wf() && q.nodes@.len() <= 0x8_0000
+    &&& forall|i: int| 0 <= i < q.nodes@.len() ==> node_ok(#[trigger] q.nodes@[i])
+    &&& q.extra is Some ==> q.extra->Some_0.index < 0x200_0000_0000 && q.extra->Some_0.length <= 0x2000_0000_0000_0000
+}
+/// budget of verify_upgrade: after gn appended roots the changeset is still far from any overflow, and still a mountain range
+pub open spec fn vu_budget(cs: &MerkleTreeChangeset, cs0: &MerkleTreeChangeset, gn: int, q: NodeQueue) -> bool {
+    &&& cs.cs_wf() && cs.cs_mr() && 0 <= gn
+    &&& cs0.length <= 0x200_0000_0000 && cs0.byte_length <= 0x200_0000_0000_0000 && cs0.nodes@.len() + cs0.roots@.len() <= 0x20_0100
+    &&& cs.length <= cs0.length + gn * 0x200_0000_0000
+    &&& cs.byte_length + (if q.extra is Some { 0x2000_0000_0000_0000int } else { 0int }) <= cs0.byte_length + gn * 0x100_0000_0000 + 0x2000_0000_0000_0000
+    &&& cs.nodes@.len() + cs.roots@.len() <= cs0.nodes@.len() + cs0.roots@.len() + 2 * gn
+    &&& cs.original_tree_length == cs0.original_tree_length && cs.original_tree_fork == cs0.original_tree_fork
+}
+
+/*@ fn src/tree/merkle_tree.rs fn verify_upgrade
+tags: C04 C09 C03 C05
 result: r
 requires:
-    old(changeset).cs_wf(), old(changeset).nodes@.len() <= 0x20_0010,
+    old(changeset).cs_wf(), old(changeset).cs_mr(),
+    old(changeset).length <= 0x200_0000_0000, old(changeset).byte_length <= 0x200_0000_0000_0000,
+    old(changeset).nodes@.len() + old(changeset).roots@.len() <= 0x20_0100,
     upgrade.start < 0x100_0000_0000 && upgrade.length < 0x100_0000_0000,
     nodes_ok(upgrade.nodes@) && nodes_ok(upgrade.additional_nodes@),
     block_root is Some ==> block_root->Some_0.index < 0x200_0000_0000 && block_root->Some_0.length <= 0x2000_0000_0000_0000
@@ -382,26 +640,147 @@ ensures:
         && final(changeset).hash is Some && final(changeset).hash->Some_0@ == crypto::h_tree(final(changeset).roots@)
         && crypto::sig_ok(*public_key, crypto::spec_signable(crypto::h_tree(final(changeset).roots@), final(changeset).length, fork), final(changeset).signature->Some_0),
     // nothing that guards commitability is touched
-    final(changeset).original_tree_length == old(changeset).original_tree_length && final(changeset).original_tree_fork == old(changeset).original_tree_fork
+    final(changeset).original_tree_length == old(changeset).original_tree_length && final(changeset).original_tree_fork == old(changeset).original_tree_fork,
+    // the roots that a commit would install still form a mountain range ending at the new length
+    r is Ok ==> final(changeset).cs_wf() && final(changeset).cs_mr()
+first:
+    let ghost cs0 = *changeset;
+    let ghost mut gn: int = 0;
+    let ghost mut gl: int = 0;
+    let ghost mut ga: nat = 61;
+before `let mut grow: bool = !changeset.roots.is_empty();`:
+    proof { assert(uq_ok(q)); }
+before `while iter.full_root(to) {`:
+    proof { flat_tree::lemma_p2_62(); assert(flat_tree::leaf_aligned(0, 61, to as int)); assert(root_start(changeset.roots@, 0) == 0); }
 loop 1:
     invariant
-        changeset.original_tree_length == old(changeset).original_tree_length, changeset.original_tree_fork == old(changeset).original_tree_fork
+        cs0.original_tree_length == old(changeset).original_tree_length, cs0.original_tree_fork == old(changeset).original_tree_fork,
+        to == 2 * (upgrade.start + upgrade.length), to < 0x400_0000_0000, uq_ok(q),
+        vu_budget(changeset, &cs0, gn, q), gn + (if q.extra is Some { 1int } else { 0int }) <= q.i + 1,
+        iter.wf(), iter.d@ == 0, iter.index == gl, 0 <= gl <= to, flat_tree::leaf_aligned(gl, ga, to as int),
+        grow ==> i <= changeset.roots@.len() && gl == root_start(changeset.roots@, i as int),
+        !grow ==> gl == 2 * changeset.length
+    decreases to - gl
+before `if i < changeset.roots.len() && changeset.roots[i].index == iter.index() {`:
+    let ghost grow0 = grow;
+    proof { assert(full_root_at(iter, gl, ga, to)); lemma_full_root_small(iter, gl, ga, to); }
+before `i += 1;`#1:
+    proof {
+        if !grow {
+            lemma_mr_index_below(changeset.roots@, i as int, changeset.roots@.len() as int);
+            assert(false);
+        }
+        flat_tree::lemma_node_of(iter);
+        assert(root_start(changeset.roots@, i + 1) == root_start(changeset.roots@, i as int) + p2(depth_of(changeset.roots@[i as int].index) + 1));
+        lemma_next_tree(iter, gl, ga, to); ga = iter.d@; gl = gl + p2(iter.d@ + 1);
+    }
+before `iter.seek(changeset.roots[changeset.roots.len() - 1].index);`#1:
+    let ghost it_root = iter;
 loop 2:
     invariant
-        changeset.original_tree_length == old(changeset).original_tree_length, changeset.original_tree_fork == old(changeset).original_tree_fork
+        cs0.original_tree_length == old(changeset).original_tree_length, cs0.original_tree_fork == old(changeset).original_tree_fork,
+        to < 0x400_0000_0000, uq_ok(q), vu_budget(changeset, &cs0, gn, q), gn + (if q.extra is Some { 1int } else { 0int }) <= q.i + 1,
+        iter.wf(), changeset.roots@.len() >= 1, iter.index == changeset.roots@.last().index,
+        it_root.wf(), full_root_at(it_root, gl, ga, to), root_index == it_root.index
+    decreases q.length
+before `changeset.append_root(q.shift(iter.sibling())?, &mut iter);`:
+    proof {
+        lemma_index_depth(iter);
+        lemma_last_root(changeset, iter);
+        lemma_right_sibling(iter);
+    }
+after `changeset.append_root(q.shift(iter.sibling())?, &mut iter);`:
+    proof { gn = gn + 1; }
+before `iter.next_tree();`#2:
+    proof {
+        // the merged last root is the full root the walk was on: the range now ends where that tree ends
+        flat_tree::lemma_node_of(iter); flat_tree::lemma_node_of(it_root);
+        assert(iter == it_root);
+        lemma_last_root(changeset, iter);
+        lemma_next_tree(iter, gl, ga, to); ga = iter.d@; gl = gl + p2(iter.d@ + 1);
+    }
+before `changeset.append_root(q.shift(iter.index())?, &mut iter);`:
+    let ghost d0 = iter.d@;
+    proof {
+        assert(gl == 2 * changeset.length);
+        flat_tree::lemma_node_of(iter);
+        lemma_index_depth(iter);
+        lemma_next_tree(iter, gl, ga, to);
+    }
+after `changeset.append_root(q.shift(iter.index())?, &mut iter);`:
+    proof { gn = gn + 1; }
+before `iter.next_tree();`#3:
+    proof {
+        lemma_index_depth(iter);
+        lemma_last_root(changeset, iter);
+        assert(p2(d0 + 1) == 2 * p2(d0));
+        ga = d0; gl = gl + p2(d0 + 1);
+    }
+before `iter.seek(changeset.roots[changeset.roots.len() - 1].index);`#2:
+    let ghost qf = q;
+after `iter.seek(changeset.roots[changeset.roots.len() - 1].index);`#2:
+    proof { lemma_last_root(changeset, iter); }
 loop 3:
     invariant
-        changeset.original_tree_length == old(changeset).original_tree_length, changeset.original_tree_fork == old(changeset).original_tree_fork
+        cs0.original_tree_length == old(changeset).original_tree_length, cs0.original_tree_fork == old(changeset).original_tree_fork,
+        nodes_ok(extra@), i <= extra@.len(), q == qf, uq_ok(q),
+        vu_budget(changeset, &cs0, gn, q), gn + (if q.extra is Some { 1int } else { 0int }) <= q.i + 1 + i,
+        iter.wf(), changeset.roots@.len() >= 1, iter.index == changeset.roots@.last().index,
+        iter.offset % 2 == 0, iter.d@ == depth_of(iter.index), iter.index < 0x200_0000_0000
+    decreases extra@.len() - i
+before `changeset.append_root(extra[i].clone(), &mut iter);`:
+    proof {
+        // the loop condition moved the iterator to the right sibling of the last root: it starts where the range ends
+        flat_tree::lemma_node_of(iter);
+        lemma_index_depth(iter);
+        assert(p2(iter.d@ + 1) == 2 * p2(iter.d@));
+        assert(iter.index == changeset.roots@.last().index + iter.factor);
+        let n = changeset.roots@.len() as int;
+        assert(mr_at(changeset.roots@, n - 1));
+        assert(root_start(changeset.roots@, n) == root_start(changeset.roots@, n - 1) + p2(depth_of(changeset.roots@[n - 1].index) + 1));
+    }
+after `changeset.append_root(extra[i].clone(), &mut iter);`:
+    proof { gn = gn + 1; lemma_last_root(changeset, iter); }
 loop 4:
     invariant
-        changeset.original_tree_length == old(changeset).original_tree_length, changeset.original_tree_fork == old(changeset).original_tree_fork
+        cs0.original_tree_length == old(changeset).original_tree_length, cs0.original_tree_fork == old(changeset).original_tree_fork,
+        nodes_ok(extra@), i <= extra@.len(), q == qf, uq_ok(q),
+        vu_budget(changeset, &cs0, gn, q), gn + (if q.extra is Some { 1int } else { 0int }) <= q.i + 1 + i,
+        iter.wf(), iter.d@ <= 43,
+        i < extra@.len() ==> it_start(iter) == 2 * changeset.length
+    decreases extra@.len() - i
+before `while i < extra.len() {`:
+    proof {
+        lemma_index_depth(iter);
+        if i < extra@.len() {
+            // the previous loop stopped on the right sibling of the last root
+            let o = iter.offset - 1;
+            assert((o + 1) * p2(iter.d@ + 1) == o * p2(iter.d@ + 1) + p2(iter.d@ + 1)) by (nonlinear_arith);
+            let n = changeset.roots@.len() as int;
+            assert(mr_at(changeset.roots@, n - 1));
+            assert(root_start(changeset.roots@, n) == root_start(changeset.roots@, n - 1) + p2(depth_of(changeset.roots@[n - 1].index) + 1));
+        }
+    }
 loop 5:
     invariant
-        changeset.original_tree_length == old(changeset).original_tree_length, changeset.original_tree_fork == old(changeset).original_tree_fork
-unproved-from `while iter.full_root(to)` to `let extra = &upgrade.additional_nodes;`:
-    walking the full roots of the upgrade with the flat-tree iterator: safety of the iterator arithmetic needs the alignment invariant of the mountain range (leaf L of a full tree of 2^k leaves is a multiple of 2^(k+1)); not proved - covered by the native contracts proofs.arbitrary_proofs_refused / proofs.honest_replication
-unproved-from `iter.seek(changeset.roots[changeset.roots.len() - 1].index);` to `changeset.fork = fork;`:
-    appending the additional nodes: same flat-tree alignment argument; not proved - covered by the native contracts
+        cs0.original_tree_length == old(changeset).original_tree_length, cs0.original_tree_fork == old(changeset).original_tree_fork,
+        changeset.original_tree_length == cs0.original_tree_length, changeset.original_tree_fork == cs0.original_tree_fork,
+        iter.wf(), iter.d@ <= 43, it_start(iter) == 2 * changeset.length, node.index < 0x100_0000_0000
+    decreases iter.d@
+before `iter.left_child();`:
+    proof {
+        assert(p2(1) == 2 * p2(0) && p2(0) == 1);
+        if iter.d@ == 0 { assert(iter.factor == 2); }
+        lemma_left_child_start(iter);
+    }
+before `changeset.append_root(node, &mut iter);`:
+    proof {
+        flat_tree::lemma_node_of(iter);
+        assert(p2(iter.d@ + 1) == 2 * p2(iter.d@));
+        flat_tree::lemma_p2_4x(); flat_tree::lemma_p2_mono(iter.d@ + 1, 44);
+    }
+after `changeset.append_root(node, &mut iter);`:
+    proof { gn = gn + 1; lemma_last_root(changeset, iter); lemma_index_depth(iter); lemma_right_sibling(iter); }
 @*/
 
 /*@ fn src/tree/merkle_tree.rs fn index_from_info
@@ -541,7 +920,9 @@ impl MerkleTree {
     requires:
         old(self).t_wf(), proof_ok(proof), infos_readable(infos),
         old(self).roots@.len() <= 64, forall|i: int| 0 <= i < old(self).roots@.len() ==> (#[trigger] old(self).roots@[i]).index < 0x200_0000_0000,
-        roots_sum(old(self).roots@) == old(self).byte_length
+        roots_sum(old(self).roots@) == old(self).byte_length,
+        // representation invariant of the tree (ASSUMED at this entry point): its roots are the mountain range of `length` leaves
+        mr(old(self).roots@) && root_start(old(self).roots@, old(self).roots@.len() as int) == 2 * old(self).length
     ensures:
         // verification never changes the tree
         *final(self) == *old(self),
@@ -567,6 +948,8 @@ impl MerkleTree {
     after `let mut changeset = self.changeset();`:
         proof {
             lemma_roots_sum_same(changeset.roots@, self.roots@);
+            assert forall|k: int| 0 <= k < changeset.roots@.len() implies (#[trigger] changeset.roots@[k]).index == self.roots@[k].index by { assert(Node::eqv(changeset.roots@[k], self.roots@[k])); }
+            lemma_mr_same(changeset.roots@, self.roots@);
             assert forall|i: int| 0 <= i < changeset.roots@.len() implies (#[trigger] changeset.roots@[i]).index < 0x200_0000_0000 by { assert(Node::eqv(changeset.roots@[i], self.roots@[i])); }
         }
     @*/
